@@ -1006,3 +1006,10 @@ mod test {
         assert_matches!(&frames[0], Frame::ImmediateAck);
     }
 }
+
+#[cfg(feature = "__verif-hooks")]
+#[allow(missing_docs, unreachable_pub, dead_code, unused_imports, unused_qualifications)]
+pub mod verif {
+    use super::*;
+    include!(concat!(env!("QUINN_VERIF_HOOKS"), "/proto/frame.rs"));
+}
